@@ -730,17 +730,19 @@ def insertChars (com : CompEditor) : List Nat → Outcome CompEditor
     | .panic p => .panic p
     | .outOfFuel => .outOfFuel
 
-/-- full-width replacement of the key's character, or the `unwrap()` panic -/
-def fullOrPanic (ev : KeyEvent) (k : Nat → StepRes D L) : StepRes D L :=
+/-- full-width replacement of the key's character; a key that has none (a non-printable key) is
+    answered with a bell (`let Some(char_) = full_width_symbol_input(..) else { return self.spin_bell() }`;
+    before the F01 fix this was `unwrap()`, a panic) -/
+def fullOrBell (sh : Shared D L) (ev : KeyEvent) (k : Nat → StepRes D L) : StepRes D L :=
   match fullWidthSymbolInput ev.unicode with
   | some c => k c
-  | none => .panic "full-width-unwrap"
+  | none => .ok (sh, .spin .bell)
 
 /-- commit / insert the key's character in the current character form -/
 def inputChar (sh : Shared D L) (ev : KeyEvent) : StepRes D L :=
   match sh.options.characterForm with
   | .half => commitOrInsert sh ev.unicode
-  | .full => fullOrPanic ev fun c => commitOrInsert sh c
+  | .full => fullOrBell sh ev fun c => commitOrInsert sh c
 
 /-- Chinese mode, key not taken by the phonetic layout: special symbol, printable character, or bell -/
 def chineseFallback (sh : Shared D L) (ev : KeyEvent) : StepRes D L :=
@@ -914,11 +916,15 @@ def Selecting.totalPage (s : Selecting) (sh : Shared D L) : Outcome Nat :=
   | .panic p => .panic p
   | .outOfFuel => .outOfFuel
 
+/-- the candidate index addressed by choosing `n` on the current page:
+    `page_no.saturating_mul(candidates_per_page).saturating_add(n)` (`usize`).  A saturated index is
+    `usize::MAX`, which no `Vec` or `str` can reach, so it is out of range like any other. -/
+def Selecting.offset (s : Selecting) (sh : Shared D L) (n : Nat) : Nat :=
+  min (s.pageNo * sh.options.candidatesPerPage + n) (2 ^ 64 - 1)
+
 /-- `Selecting::select(n)`: returns the (possibly updated) selecting state too -/
 def Selecting.select (s : Selecting) (sh : Shared D L) (n : Nat) : Outcome (Selecting × Shared D L × Trans) :=
-  let offset := s.pageNo * sh.options.candidatesPerPage + n
-  if offset ≥ 2 ^ 64 then .panic "select-offset-overflow"
-  else
+  let offset := Selecting.offset s sh n
   let finish (sh : Shared D L) (sym : Sym) : Outcome (Selecting × Shared D L × Trans) :=
     let r := match s.action with
       | .insert => sh.com.insert sym
@@ -927,6 +933,12 @@ def Selecting.select (s : Selecting) (sh : Shared D L) (n : Nat) : Outcome (Sele
     | .ok com => .ok (s, { sh with com := com.popCursor }, .toState .entering)
     | .panic p => .panic p
     | .outOfFuel => .outOfFuel
+  -- `if offset >= self.candidates(..).len() { return self.spin_bell() }`: nothing listed at this index
+  match Selecting.candidates env s sh with
+  | .panic q => .panic q
+  | .outOfFuel => .outOfFuel
+  | .ok listed =>
+  if offset ≥ listed.length then .ok (s, sh, .spin .bell) else
   match s.sel with
   | .phrase p =>
     match PhraseSel.candidates env p sh.dict sh.syl with
@@ -956,17 +968,23 @@ def Selecting.select (s : Selecting) (sh : Shared D L) (n : Nat) : Outcome (Sele
     | .panic q => .panic q
     | .outOfFuel => .outOfFuel
 
-/-- re-target the selection at the symbol under the cursor (keys `j` / `k`) -/
+/-- re-target the selection at the symbol under the cursor (keys `j` / `k`): the new list starts at
+    page 0; a symbol without special-symbol candidates gets the symbol table (as in `newSpecialSymbol`) -/
 def retarget (s : Selecting) (sh : Shared D L) : StepRes D L :=
   match sh.com.symbol? with
   | none => .panic "should-have-symbol"
   | some sym =>
     if sym.isSyl then
       match PhraseSel.init env (!sh.options.phraseChoiceRearward) sh.options.lookupStrategy sh.com.inner sh.com.cursor sh.dict with
-      | .ok sel => .ok (sh, .toState (.selecting { s with sel := .phrase sel }))
+      | .ok sel => .ok (sh, .toState (.selecting { s with sel := .phrase sel, pageNo := 0 }))
       | .panic p => .panic p
       | .outOfFuel => .outOfFuel
-    else .ok (sh, .toState (.selecting { s with sel := .special sym }))
+    else
+      match specialMenu sym with
+      | .ok [] => .ok (sh, .toState (.selecting { s with sel := .symbol sh.symSel, pageNo := 0 }))
+      | .ok _ => .ok (sh, .toState (.selecting { s with sel := .special sym, pageNo := 0 }))
+      | .panic p => .panic p
+      | .outOfFuel => .outOfFuel
 
 /-- `impl State for Selecting`: `next`.  A `Spin` that changed the `Selecting` value itself is
     represented as `toState (.selecting s')` with the behaviour recorded separately (`spinSelf`). -/
@@ -1179,7 +1197,7 @@ def Editor.jump (e : Editor D L) (which : Nat) : Outcome (Editor D L × Bool) :=
   | .selecting s =>
     match s.sel with
     | .phrase p =>
-      let setP (p' : PhraseSel) : Editor D L := { e with state := .selecting { s with sel := .phrase p' } }
+      let setP (p' : PhraseSel) : Editor D L := { e with state := .selecting { s with sel := .phrase p', pageNo := 0 } }
       match which with
       | 0 =>
         match PhraseSel.init env p.forward p.strategy p.com p.orig e.shared.dict with
